@@ -281,6 +281,8 @@ impl<'a> Hist<'a> {
         match self.tw.listener.accept() {
             Ok((s, _)) => {
                 s.set_nonblocking(true).ok()?;
+                // no Nagle: a small segment must not wait for the delayed ACK of the previous one
+                s.set_nodelay(true).ok()?;
                 Some(s)
             }
             Err(_) => None,
@@ -487,6 +489,22 @@ pub fn exec(tw: &TcpWorld, uw: &c07::World, ops: &[Op], up_is_outbound: bool, wi
             h.settle().await;
             let txt = verif::metrics_text(&h.core);
             outs.push(fmt_series(&parse_series(&txt), up_is_outbound));
+            if std::env::var("C16_DEBUG").is_ok() {
+                let port = h.tw.origin.port();
+                if let Ok(o) = std::process::Command::new("sh").arg("-c").arg(format!("ss -tnoi | grep -A1 ':{}' | head -8", port)).output() {
+                    eprintln!("{}", String::from_utf8_lossy(&o.stdout));
+                }
+                for (i, t) in h.tuns.iter().enumerate() {
+                    let got = match &t.io {
+                        TunIo::H2(st) => st.received.len(),
+                        TunIo::H1 => match &h.sess[t.sess] {
+                            Sess::H1(x) => x.received.len(),
+                            _ => 0,
+                        },
+                    };
+                    eprintln!("  after {}: tunnel {} status {} client_got {} origin_got {} origin_present {}", op_tok(op), i, t.status, got, t.origin_got, t.origin.is_some());
+                }
+            }
         }
         if let Some(addr) = maddr {
             // the real listener, queried from another thread while this one keeps the runtime turning
